@@ -69,7 +69,30 @@ def s_suite():
 
 
 BAD_SKS = [0, R, R + 1, -1, -R, 1 << 255, 1 << 256, 2 * R, -(1 << 255)]
-BAD_SK_OBJECTS = ["1", 1.0, None, b"\x01", [1], (1,), 1 + 0j]
+class _Indexable:
+    """Not an int, but usable as one through __index__ (key handles, numpy-like scalars)."""
+    def __init__(self, v):
+        self.v = v
+
+    def __index__(self):
+        return self.v
+
+    def __repr__(self):
+        return f"_Indexable({self.v})"
+
+
+class _IntConvertible:
+    def __init__(self, v):
+        self.v = v
+
+    def __int__(self):
+        return self.v
+
+    def __repr__(self):
+        return f"_IntConvertible({self.v})"
+
+
+BAD_SK_OBJECTS = ["1", 1.0, None, b"\x01", [1], (1,), 1 + 0j, _Indexable(5), _IntConvertible(7), _Indexable(12345678901234567890)]
 BOUNDARY_SKS = [1, 2, R - 2, R - 1]
 BOUNDARY_MSG_LENS = [0, 1, 55, 56, 63, 64, 65]
 _SPECIAL_SET = set(SPECIAL_SKS)
